@@ -95,22 +95,35 @@ theorem mem_of_mem_removeNth {α} (l : List α) (n : Nat) (x : α) (h : x ∈ re
 /-- kind / start / finish of an impl: never rewritten after creation except `finish` by `handle_ended_actions` -/
 def Impl.sfk (x : Impl) : Kind × Rat × Rat := (x.kind, x.start, x.finish)
 
+/-- what `K.slice` guarantees about the simcalls it issues (`s4u::this_actor::sleep_for`: `if (duration <= 0) return;`,
+the op language starts only activities of non-negative duration, a comm lasts longer than its link's latency) -/
+def ReqOk : Req → Prop
+  | .sleep d => 0 < d
+  | .start _ kind d => 0 ≤ d ∧ (kind = .comm → linkLat < d)
+  | _ => True
+
+/-- pending simcall of an actor: unchanged, consumed, or freshly issued by a slice (then well-formed) -/
+def PendFr (p p' : Option Req) : Prop := p' = p ∨ p' = none ∨ ∃ r, p' = some r ∧ ReqOk r
+
+theorem PendFr.trans {p1 p2 p3 : Option Req} (h1 : PendFr p1 p2) (h2 : PendFr p2 p3) : PendFr p1 p3 := by
+  rcases h2 with h | h | h
+  · rw [h]; exact h1
+  · exact Or.inr (Or.inl h)
+  · exact Or.inr (Or.inr h)
+
 structure Shr (k k' : K) : Prop where
   timers : k'.timers.Sublist k.timers
   heap : k'.heap.Sublist k.heap
   nextT : k'.nextT = k.nextT
   sfk : k'.impls.map Impl.sfk = k.impls.map Impl.sfk
   nact : k'.actors.length = k.actors.length
-  pend : ∀ a, (k'.actor a).pending = (k.actor a).pending ∨ (k'.actor a).pending = none
+  pend : ∀ a, PendFr (k.actor a).pending (k'.actor a).pending
 
 theorem Shr.refl (k : K) : Shr k k := ⟨List.Sublist.refl _, List.Sublist.refl _, rfl, rfl, rfl, fun _ => Or.inl rfl⟩
 
 theorem Shr.trans {k1 k2 k3 : K} (h1 : Shr k1 k2) (h2 : Shr k2 k3) : Shr k1 k3 :=
   ⟨h2.timers.trans h1.timers, h2.heap.trans h1.heap, h2.nextT.trans h1.nextT, h2.sfk.trans h1.sfk,
-   h2.nact.trans h1.nact, fun a => by
-     rcases h2.pend a with h | h
-     · rw [h]; exact h1.pend a
-     · exact Or.inr h⟩
+   h2.nact.trans h1.nact, fun a => (h1.pend a).trans (h2.pend a)⟩
 
 theorem Shr.nimpl {k k' : K} (h : Shr k k') : k'.impls.length = k.impls.length := by
   have := congrArg List.length h.sfk; simpa using this
@@ -134,10 +147,10 @@ theorem Shr.kind {k k' : K} (h : Shr k k') (i : Nat) : (k'.impl i).kind = (k.imp
 /-- proves `Shr k k'` when k' is k after `setImpl` / `setActor` / record updates that filter heap or timers -/
 macro "shr_tac" : tactic =>
   `(tactic| (refine ⟨?_, ?_, ?_, ?_, ?_, ?_⟩ <;> (try simp [K.setImpl, K.setActor, K.timerRemove, upd_length, K.actor]) <;>
-             (repeat rw [map_upd_inv]) <;> (try (intro _; rfl))))
+             (repeat rw [map_upd_inv]) <;> (try (intro _; first | rfl | exact Or.inl rfl))))
 
 theorem shr_setActor (k : K) (a : Nat) (f : Actor → Actor)
-    (hf : ∀ x, (f x).pending = x.pending ∨ (f x).pending = none) : Shr k (k.setActor a f) :=
+    (hf : ∀ x, PendFr x.pending (f x).pending) : Shr k (k.setActor a f) :=
   ⟨List.Sublist.refl _, List.Sublist.refl _, rfl, rfl, by simp, fun b => by
     rw [actor_setActor]; split
     · rename_i h; rw [h.1]; exact hf _
@@ -158,11 +171,11 @@ theorem shr_answer (k : K) (a : Nat) : Shr k (k.answer a) := by
 
 theorem shr_register (k : K) (i a : Nat) : Shr k (k.register i a) := by
   unfold K.register
-  exact (shr_setImpl k i _ (by intro _; rfl)).trans (shr_setActor _ a _ (by intro _; first | exact Or.inl rfl | exact Or.inr rfl))
+  exact (shr_setImpl k i _ (by intro _; rfl)).trans (shr_setActor _ a _ (by intro _; first | exact Or.inl rfl | exact Or.inr (Or.inl rfl)))
 
 theorem shr_unregister (k : K) (i a : Nat) : Shr k (k.unregister i a) := by
   unfold K.unregister
-  exact (shr_setImpl k i _ (by intro _; rfl)).trans (shr_setActor _ a _ (by intro _; first | exact Or.inl rfl | exact Or.inr rfl))
+  exact (shr_setImpl k i _ (by intro _; rfl)).trans (shr_setActor _ a _ (by intro _; first | exact Or.inl rfl | exact Or.inr (Or.inl rfl)))
 
 theorem shr_timerRemove (k : K) (id : Nat) : Shr k (k.timerRemove id) :=
   shr_of _ _ (List.filter_sublist) (List.Sublist.refl _) rfl rfl rfl
@@ -199,17 +212,17 @@ theorem unregisterFirst_eq (k : K) (i a : Nat) :
     cases h2 : ((((k.uf1 i a).uf2 a).uf3 i a).actor a).wannadie <;> simp
 
 theorem shr_uf1 (k : K) (i a : Nat) : Shr k (k.uf1 i a) :=
-  (shr_setImpl k i (fun x => { x with simcalls := x.simcalls.drop 1 }) (by intro _; rfl)).trans (shr_setActor _ a _ (by intro _; first | exact Or.inl rfl | exact Or.inr rfl))
+  (shr_setImpl k i (fun x => { x with simcalls := x.simcalls.drop 1 }) (by intro _; rfl)).trans (shr_setActor _ a _ (by intro _; first | exact Or.inl rfl | exact Or.inr (Or.inl rfl)))
 
 theorem shr_uf2 (k : K) (a : Nat) : Shr k (k.uf2 a) := by
   unfold K.uf2; split
-  · exact (shr_timerRemove k _).trans (shr_setActor _ a _ (by intro _; first | exact Or.inl rfl | exact Or.inr rfl))
+  · exact (shr_timerRemove k _).trans (shr_setActor _ a _ (by intro _; first | exact Or.inl rfl | exact Or.inr (Or.inl rfl)))
   · exact Shr.refl _
 
 theorem shr_uf3 (k : K) (i a : Nat) : Shr k (k.uf3 i a) := by
   unfold K.uf3; split
   · exact Shr.refl _
-  · exact (shr_foldl_unregister _ a k).trans (shr_setActor _ a _ (by intro _; first | exact Or.inl rfl | exact Or.inr rfl))
+  · exact (shr_foldl_unregister _ a k).trans (shr_setActor _ a _ (by intro _; first | exact Or.inl rfl | exact Or.inr (Or.inl rfl)))
 
 theorem shr_ufAll (k : K) (i a : Nat) : Shr k (k.ufAll i a) :=
   ((shr_uf1 k i a).trans (shr_uf2 _ a)).trans (shr_uf3 _ i a)
@@ -316,17 +329,219 @@ theorem die_eq (k : K) (a : Nat) (failed : Bool) :
 theorem shr_dieTimers (k : K) (a : Nat) : Shr k (k.dieTimers a) := by
   have h1 : ∀ k : K, Shr k (k.dieK a) := by
     intro k; unfold K.dieK; split
-    · exact (shr_timerRemove k _).trans (shr_setActor _ a _ (by intro _; first | exact Or.inl rfl | exact Or.inr rfl))
+    · exact (shr_timerRemove k _).trans (shr_setActor _ a _ (by intro _; first | exact Or.inl rfl | exact Or.inr (Or.inl rfl)))
     · exact Shr.refl _
   have h2 : ∀ k : K, Shr k (k.dieT a) := by
     intro k; unfold K.dieT; split
-    · exact (shr_timerRemove k _).trans (shr_setActor _ a _ (by intro _; first | exact Or.inl rfl | exact Or.inr rfl))
+    · exact (shr_timerRemove k _).trans (shr_setActor _ a _ (by intro _; first | exact Or.inl rfl | exact Or.inr (Or.inl rfl)))
     · exact Shr.refl _
   exact (h1 k).trans (h2 _)
 
 theorem shr_die (k : K) (a : Nat) (failed : Bool) : Shr k (k.die a failed).1 := by
   rw [die_eq]
-  exact ((shr_foldl_cancel _ k).trans (shr_dieTimers _ a)).trans (shr_setActor _ a _ (by intro _; first | exact Or.inl rfl | exact Or.inr rfl))
+  exact ((shr_foldl_cancel _ k).trans (shr_dieTimers _ a)).trans (shr_setActor _ a _ (by intro _; first | exact Or.inl rfl | exact Or.inr (Or.inl rfl)))
 
+
+/-! ### generic induction over an actor slice -/
+
+inductive SliceUpd (k : K) (a : Nat) : (Actor → Actor) → Prop where
+  | next : SliceUpd k a (fun x => { x with prog := x.prog.drop 1, stage := 0, res := .none, anyList := [] })
+  | slot (s i : Nat) (st st' : SState) : (k.actor a).slot s = some (i, st') → SliceUpd k a (fun x => x.setSlot s i st)
+  | slotAny (s r : Nat) (st : SState) : (k.actor a).res = .rank r →
+      SliceUpd k a (fun x => x.setSlot s ((((k.actor a).slot s).map (·.1)).getD 0) st)
+
+def ReqFrom (x : Actor) : Req → Prop
+  | .waitFor i _ => ∃ s st, x.slot s = some (i, st)
+  | .waitAny is _ => ∀ i ∈ is, ∃ s st, x.slot s = some (i, st)
+  | _ => True
+
+theorem waitOp_ind (a : Nat) (P Q : K → Prop)
+    (hupd : ∀ k f, P k → SliceUpd k a f → P (k.setActor a f))
+    (hissue : ∀ k r b, P k → ReqOk r → ReqFrom (k.actor a) r → Q (k.issue a r b))
+    (hbad : ∀ (k : K) s, P k → Q { k with bad := some s })
+    (k : K) (s : Nat) (tau : Rat) (oc : Bool) (stage : Nat)
+    (next stop : K → List Ev → K × List Ev) (mk : String → String → List Ev)
+    (hn : ∀ k' e, P k' → Q (next k' e).1) (hs : ∀ k' e, (stop k' e).1 = k') (hP : P k) :
+    Q (K.slice.waitOp k a s tau oc stage (k.actor a) next stop mk).1 := by
+  unfold K.slice.waitOp
+  split
+  · rw [hs]; exact hbad _ _ hP
+  · rename_i i st hsl
+    simp only []
+    split
+    · split
+      · rw [hs]; exact hbad _ _ hP
+      · rw [hs]; exact hissue _ _ _ hP trivial ⟨s, st, hsl⟩
+    · split
+      · split
+        · rw [hs]; exact hissue _ _ _ hP trivial trivial
+        · exact hn _ _ hP
+      · exact hn _ _ hP
+      · exact hn _ _ (hupd _ _ hP (.slot s i _ st hsl))
+    · exact hn _ _ (hupd _ _ hP (.slot s i _ st hsl))
+
+theorem slice_ind (a : Nat) (P Q : K → Prop)
+    (hupd : ∀ k f, P k → SliceUpd k a f → P (k.setActor a f))
+    (hissue : ∀ k r b, P k → ReqOk r → ReqFrom (k.actor a) r → Q (k.issue a r b))
+    (hbad : ∀ (k : K) s, P k → Q { k with bad := some s })
+    (hdie : ∀ k, P k → Q (k.die a false).1)
+    (hPQ : ∀ k, P k → Q k) :
+    ∀ fuel k evs, P k → Q (k.slice a fuel evs).1 := by
+  intro fuel
+  induction fuel with
+  | zero => intro k evs hP; exact hPQ k hP
+  | succ fuel ih =>
+    intro k evs hP
+    unfold K.slice
+    simp only []
+    split
+    · exact hdie k hP
+    · split
+      case h_1 =>
+        split
+        · exact ih _ _ (hupd _ _ hP .next)
+        · rename_i hd
+          refine hissue _ _ true hP ?_ trivial
+          show (0 : Rat) < _
+          exact Rat.not_le.mp hd
+      case h_2 => exact ih _ _ (hupd _ _ hP .next)
+      case h_3 =>
+        split
+        · exact hbad _ _ hP
+        · rename_i kind d _ _ hc
+          refine hissue _ _ false hP ?_ trivial
+          simp only [Bool.or_eq_true, Bool.and_eq_true, decide_eq_true_eq, beq_iff_eq, not_or, not_and] at hc
+          refine ⟨Rat.not_lt.mp hc.1.1.1, fun hk => ?_⟩
+          exact Rat.not_le.mp (hc.1.1.2 hk)
+      case h_4 => exact ih _ _ (hupd _ _ hP .next)
+      case h_5 => exact hissue _ _ false hP trivial trivial
+      case h_6 => exact ih _ _ (hupd _ _ hP .next)
+      case h_7 => exact hissue _ _ false hP trivial trivial
+      case h_8 => exact ih _ _ (hupd _ _ hP .next)
+      case h_9 => exact hissue _ _ false hP trivial trivial
+      case h_10 => exact ih _ _ (hupd _ _ hP .next)
+      case h_11 =>
+        split
+        · exact hbad _ _ hP
+        · split
+          · exact ih _ _ (hupd _ _ hP .next)
+          · exact hissue _ _ false hP trivial trivial
+      case h_12 =>
+        split
+        · rename_i i _ hsl _
+          exact ih _ _ (hupd _ _ (hupd _ _ hP (.slot _ i _ _ hsl)) .next)
+        · exact ih _ _ (hupd _ _ hP .next)
+      case h_13 =>
+        exact waitOp_ind a P Q hupd hissue hbad k _ _ _ _ _ _ _ (fun k' e hP' => ih _ _ (hupd _ _ hP' .next))
+          (fun _ _ => rfl) hP
+      case h_14 =>
+        exact waitOp_ind a P Q hupd hissue hbad k _ _ _ _ _ _ _ (fun k' e hP' => ih _ _ (hupd _ _ hP' .next))
+          (fun _ _ => rfl) hP
+      case h_15 =>
+        exact waitOp_ind a P Q hupd hissue hbad k _ _ _ _ _ _ _ (fun k' e hP' => ih _ _ (hupd _ _ hP' .next))
+          (fun _ _ => rfl) hP
+      case h_16 =>
+        split
+        · exact hbad _ _ hP
+        · split
+          · exact hbad _ _ hP
+          · refine hissue _ _ true hP trivial ?_
+            intro i hi
+            simp only [List.mem_filterMap, List.mem_map, id] at hi
+            obtain ⟨x, ⟨s, _, hs⟩, hx⟩ := hi
+            subst hx
+            cases hsl : (k.actor a).slot s with
+            | none => rw [hsl] at hs; simp at hs
+            | some p => rw [hsl] at hs; simp at hs; exact ⟨s, p.2, by rw [← hs]; exact hsl⟩
+      case h_17 =>
+        split
+        · rename_i r hr
+          split
+          · exact ih _ _ (hupd _ _ (hupd _ _ hP (.slotAny _ r _ hr)) .next)
+          · exact hbad _ _ hP
+        · exact ih _ _ (hupd _ _ hP .next)
+
+/-! ### `outer` in pieces -/
+
+def outerDelta (s : St) : Option Rat :=
+  timeDelta s.now (minDate (s.k.timers.map (·.date))) (minDate (s.k.heap.map (·.date)))
+
+def outerPast (s : St) : Bool :=
+  match minDate (s.k.timers.map (·.date)) with | some t => decide (t < s.now) | none => false
+
+/-- `solve`: advance the clock by `d` and update the actions -/
+def solveStep (s : St) : Option Rat → St
+  | none => s
+  | some d =>
+    let s := { s with now := s.now + d }
+    let r := popWindow s.k.heap.length s []
+    { r.1 with k := { r.1.k with heap := r.1.k.heap ++ r.2 } }
+
+def outerTail (s : St) (delta : Option Rat) : St :=
+  let s := if delta.isNone && s.k.toRun.isEmpty && !s.k.alive.isEmpty then
+      { s with k := s.k.alive.foldl (fun k a => k.kill a) s.k }
+    else s
+  if delta.isNone && s.k.toRun.isEmpty then { s with done := true } else s
+
+theorem outer_eq (s : St) : outer s =
+    match outerPast s with
+    | true => { s with k := { s.k with bad := some "solve: xbt_assert(max_date >= now_)" } }
+    | false =>
+      let s1 := solveStep s (outerDelta s)
+      outerTail (timersLoop (s1.k.timers.length + 1) s1) (outerDelta s) := by
+  unfold outer
+  simp only []
+  split
+  · rename_i heq
+    have : outerPast s = true := heq
+    rw [this]
+  · rename_i heq
+    have : outerPast s = false := heq
+    rw [this]
+    unfold outerDelta
+    generalize timeDelta s.now (minDate (s.k.timers.map (·.date))) (minDate (s.k.heap.map (·.date))) = dl
+    cases dl <;> rfl
+
+theorem shr_fire (k : K) (t : Timer) : Shr k (k.fire t) := by
+  unfold K.fire
+  split
+  · exact ((shr_exit k _).trans (shr_setActor _ _ _ (by intro _; exact Or.inl rfl))).trans (shr_addToRun _ _)
+  · simp only []
+    split
+    · exact shr_setActor _ _ _ (by intro _; exact Or.inl rfl)
+    · exact (((shr_setActor k _ _ (by intro _; exact Or.inl rfl)).trans (shr_unregister _ _ _)).trans
+        (shr_setActor _ _ _ (by intro _; exact Or.inl rfl))).trans (shr_answer _ _)
+  · simp only []
+    exact (((shr_setActor k _ _ (by intro _; exact Or.inl rfl)).trans (shr_foldl_unregister _ _ _)).trans
+        (shr_setActor _ _ _ (by intro _; exact Or.inl rfl))).trans (shr_answer _ _)
+
+theorem shr_foldl_kill (l : List Nat) (k : K) : Shr k (l.foldl (fun k a => k.kill a) k) := by
+  induction l generalizing k with
+  | nil => exact Shr.refl k
+  | cons x xs ih => exact (shr_kill k x).trans (ih _)
+
+theorem shr_slice (a : Nat) (fuel : Nat) (k : K) (evs : List Ev) : Shr k (k.slice a fuel evs).1 := by
+  refine slice_ind a (fun k' => Shr k k') (fun k' => Shr k k') ?_ ?_ ?_ ?_ (fun _ h => h) fuel k evs (Shr.refl k)
+  · intro k' f h hf
+    refine h.trans (shr_setActor _ _ _ ?_)
+    cases hf <;> (intro _; exact Or.inl rfl)
+  · intro k' r b h hr _
+    exact h.trans (shr_setActor _ _ _ (by intro _; exact Or.inr (Or.inr ⟨r, rfl, hr⟩)))
+  · intro k' s h
+    exact h.trans (shr_of _ _ (List.Sublist.refl _) (List.Sublist.refl _) rfl rfl rfl)
+  · intro k' h
+    exact h.trans (shr_die _ _ _)
+
+theorem shr_runAll (l : List Nat) (k : K) (evs : List Ev) : Shr k (runAll k l evs).1 := by
+  induction l generalizing k evs with
+  | nil => exact Shr.refl k
+  | cons a rest ih =>
+    unfold runAll
+    simp only []
+    split
+    · split
+      · exact (shr_die k a true).trans (ih _ _)
+      · exact ih _ _
+    · exact (shr_slice a _ k []).trans (ih _ _)
 
 end SgVerif.TimeCore
